@@ -290,6 +290,49 @@ def self_test(chk, trace):
                            f"{len(good)} genuine lines accepted")
 
 
+PERMS = ["login", "pub-admin", "pub-list", "pub-read", "pub-create",
+         "pub-delete", "ca-list", "ca-read", "ca-create", "ca-update",
+         "ca-admin", "ca-delete", "routes-read", "routes-update",
+         "routes-analysis", "aspas-read", "aspas-update", "bgpsec-read",
+         "bgpsec-update", "rta-list", "rta-read", "rta-update"]
+
+
+def random_role_cases(chk, cases, nroles):
+    """Exploration beyond the role shapes: roles whose general, blanket and
+    per-CA sets are random subsets of the permissions (seeded), tried on
+    every guarded route. Only the enumeration is done here; the verdict is
+    still TLC's (AuthzTrace)."""
+    templates = {}
+    for c in cases:
+        if c["kind"] in ("perm", "login", "listing") and c["ca"] == "ca1" \
+                and c["cred"] == "role" and not c["testbed"] \
+                and not c["peer_mapped"] and not c.get("nomethod"):
+            templates.setdefault(c["route"], c)
+    rng = chk.rng
+
+    def subset():
+        dens = rng.choice([0.3, 0.5, 0.8])
+        return sorted(p for p in PERMS if rng.random() < dens)
+
+    res = []
+    for n in range(nroles):
+        none = sorted(set(subset()) | {"login"})
+        specific = []
+        for ca in ("ca1", "ca2"):
+            if rng.random() < 0.5:
+                specific.append({"ca": ca, "perms": subset()})
+        role = {"none": none, "any": subset(), "specific": specific}
+        for rid in sorted(templates):
+            c = copy.deepcopy(templates[rid])
+            c.update({"shape": f"random{n}", "role": role,
+                      "transport": rng.choice(["unix", "tcp"]),
+                      "ca": rng.choice(["ca1", "ca2"]),
+                      "expect": "-", "expect_shown": []})
+            c["other"] = "ca2" if c["ca"] == "ca1" else "ca1"
+            res.append(c)
+    return res
+
+
 def select_quick(chk, cases):
     """Quick tier: every route with every role shape on ca1, both
     transports for the credential classes; a seeded half of the rest."""
@@ -336,6 +379,15 @@ def run(tier, seed):
     chk.cov["table_entries"] = nroutes
     chk.cov["cases_generated"] = len(cases)
     todo = cases if tier == "thorough" else select_quick(chk, cases)
+    extra = random_role_cases(chk, cases, 4 if tier == "quick" else 30)
+    chk.cov["exploration"] = {
+        "random_roles": 4 if tier == "quick" else 30,
+        "random_role_cases": len(extra),
+        "note": "roles with random permission subsets (seeded) on every "
+                "guarded route; exploration of the role space beyond the "
+                "enumerated shapes, judged by TLC like every other case",
+    }
+    todo = todo + extra
     for c in todo[:2]:
         chk.sample({k: c[k] for k in ("route", "m", "path", "shape", "cred",
                                       "transport", "expect")})
